@@ -551,6 +551,25 @@ func c07Sentinels() []*genCase {
 	add("field named error in an error", &Desc{Name: "org.example.errfield", Mems: []Mem{m0(), {Kind: 'e', Name: "E", T: strct(Fld{"error", base(kString)})}}}, 0)
 	add("field named error in a method", &Desc{Name: "org.example.errfield2", Mems: []Mem{{Kind: 'm', Name: "M", In: strct(Fld{"error", base(kString)}), Out: strct(Fld{"error", base(kInt)})}}}, 0)
 	add("fields differing only in the case of the first letter", &Desc{Name: "org.example.casefields", Mems: []Mem{{Kind: 'm', Name: "M", In: strct(Fld{"a", base(kInt)}, Fld{"A", base(kInt)}), Out: strct()}}}, 0)
+	us := strct()
+	for _, k := range []string{"max_size", "maxSize", "maxsize", "a_1", "a1", "foo_bar", "fooBar", "foobar", "fooBAR", "x_y_z", "xYZ", "xyz", "x_yz", "xy_z", "id", "iD", "i_d"} {
+		us.Fields = append(us.Fields, Fld{k, base(kInt)})
+	}
+	add("field names differing only by underscores or inner case", &Desc{Name: "org.example.snake", Mems: []Mem{{Kind: 'm', Name: "U", In: us, Out: us}, {Kind: 'e', Name: "E", T: us}, {Kind: 't', Name: "T", T: us},
+		{Kind: 't', Name: "MaxSize", T: strct(Fld{"max_size", alias("T")}, Fld{"maxSize", wrap(kMaybe, alias("T"))})}, {Kind: 'm', Name: "GetIt", In: strct(), Out: strct(Fld{"m", alias("MaxSize")})}}}, 0)
+	for _, nm := range []string{"org.varlink.resolver", "org.varlink.servicex", "org.varlink", "com.example.std", "org.varlink.service.sub"} {
+		add("errors named like the standard org.varlink.service errors", &Desc{Name: nm, Mems: []Mem{
+			{Kind: 'm', Name: "Resolve", In: strct(Fld{"interface", base(kString)}), Out: strct(Fld{"address", base(kString)})},
+			{Kind: 'm', Name: "GetInfo", In: strct(), Out: strct(Fld{"vendor", base(kString)})},
+			{Kind: 'e', Name: "InterfaceNotFound", T: strct(Fld{"interface", base(kString)})},
+			{Kind: 'e', Name: "MethodNotFound", T: strct(Fld{"method", base(kString)})},
+			{Kind: 'e', Name: "MethodNotImplemented", T: strct(Fld{"method", base(kString)}, Fld{"extra", base(kInt)})},
+			{Kind: 'e', Name: "InvalidParameter", T: strct(Fld{"parameter", base(kString)})},
+			{Kind: 'e', Name: "PermissionDenied"}}}, 0)
+	}
+	add("error named Error", &Desc{Name: "org.example.errnamed", Mems: []Mem{m0(), {Kind: 'e', Name: "Error", T: strct(Fld{"why", base(kString)})}, {Kind: 'e', Name: "Errors"}}}, 0)
+	add("method named Error", &Desc{Name: "org.example.errmethod", Mems: []Mem{{Kind: 'm', Name: "Error", In: strct(Fld{"a", base(kInt)}), Out: strct(Fld{"b", base(kInt)})}, {Kind: 'e', Name: "Failed", T: strct(Fld{"why", base(kString)})},
+		{Kind: 'm', Name: "MethodNotImplemented", In: strct(), Out: strct(Fld{"x", base(kInt)}, Fld{"y", base(kInt)})}, {Kind: 'm', Name: "InvalidParameter", In: strct(Fld{"p", base(kInt)}), Out: strct()}}}, 0)
 	add("recursive alias through containers", &Desc{Name: "org.example.recursive", Mems: []Mem{{Kind: 't', Name: "Tree", T: strct(Fld{"kids", wrap(kArray, alias("Tree"))}, Fld{"next", wrap(kMaybe, alias("Tree"))}, Fld{"byname", wrap(kMap, alias("Tree"))})}, {Kind: 'm', Name: "Walk", In: strct(Fld{"t", alias("Tree")}), Out: strct(Fld{"t", wrap(kMaybe, alias("Tree"))})}}}, 0)
 	add("object everywhere", &Desc{Name: "org.example.objects", Mems: []Mem{{Kind: 't', Name: "O", T: strct(Fld{"o", base(kObject)})}, {Kind: 'm', Name: "M", In: strct(Fld{"a", base(kObject)}, Fld{"b", wrap(kArray, base(kObject))}, Fld{"c", wrap(kMaybe, base(kObject))}), Out: strct(Fld{"r", wrap(kMap, base(kObject))}, Fld{"s", alias("O")})}, {Kind: 'e', Name: "E", T: strct(Fld{"detail", base(kObject)})}}}, 0)
 	add("alias of object and of optional object", &Desc{Name: "org.example.objalias", Mems: []Mem{{Kind: 't', Name: "Raw", T: base(kObject)}, {Kind: 't', Name: "MaybeRaw", T: wrap(kMaybe, base(kObject))}, {Kind: 't', Name: "MaybeAl", T: wrap(kMaybe, alias("Raw"))},
